@@ -118,10 +118,10 @@ func (c *c10Cast) run(cfg c10Cfg, hist []int) (out c10Run) {
 			net.Down(u)
 		}
 		// reference model
-		refLoaded := false     // a CRL for the CDP set is in force
-		refKnown := false      // the validator has seen this CDP set (entry exists)
-		pendingBg := 0         // background fetches spawned and not yet completed
-		diskAccepted := false  // disk holds a complete accepted CRL (survives restart)
+		refLoaded := false    // a CRL for the CDP set is in force
+		refKnown := false     // the validator has seen this CDP set (entry exists)
+		pendingBg := 0        // background fetches spawned and not yet completed
+		diskAccepted := false // disk holds a complete accepted CRL (survives restart)
 		acceptable := func(s string) bool {
 			switch s {
 			case "good":
@@ -131,7 +131,7 @@ func (c *c10Cast) run(cfg c10Cfg, hist []int) (out c10Run) {
 			}
 			return false
 		}
-		lastOK := "" // the multi-URL loader asks the URL that answered last time first (which URL is asked is not constrained by the property)
+		lastOK := ""             // the multi-URL loader asks the URL that answered last time first (which URL is asked is not constrained by the property)
 		fetch := func() string { // state of the document a load attempt obtains ("" = nothing)
 			if lastOK != "" && state[lastOK] != "down" {
 				return state[lastOK]
